@@ -64,6 +64,9 @@ pub struct Model {
     /// per vAMM: the insurance fund it was *given* (instantiate message / successful UpdateConfig), kept from the
     /// history rather than read back from the vAMM's config
     pub vamm_if: Vec<Option<String>>,
+    /// per vAMM: cumulative premium fraction accumulated by the harness from its own reference premium of every
+    /// successful settlement (None once a settlement could not be referenced)
+    pub cum_ref: Vec<Option<i128>>,
 }
 
 /// Evidence and violation collector for one run.
@@ -267,6 +270,7 @@ impl Runner {
             model.q_at_size.push(m);
             model.feed.push(vec![(cfg.start_time, cfg.vamms[i].oracle_price)]);
             model.liq_block.push(0);
+            model.cum_ref.push(Some(0));
             model.vamm_if.push(if cfg.kind == WorldKind::Standard && cfg.vamms[i].init_if { Some(w.addrs.insurance_fund.clone()) } else if cfg.kind == WorldKind::VammDirect { Some(crate::world::IF_EOA.to_string()) } else { None });
             model.trades_in_block.push((0, 0));
             model.settlements.push(0);
@@ -389,6 +393,22 @@ impl Runner {
                 post.bal(&actor_addr),
                 hkey(&post.dump)
             ));
+        }
+        if out.ok {
+            if let Op::PayFunding { vamm } = &step.op {
+                // the harness's own running sum of settlement premiums (reference for "funding owed")
+                let v = *vamm;
+                let prem = match (pq_u(&preq, "twap"), pq_u(&preq, "utwap"), self.obs.vamms.get(v)) {
+                    (Some(tw), Some(ut), Some(vo)) => crate::refmodel::smul_div(tw as i128 - ut as i128, vo.funding_period as i128, 86400),
+                    _ => None,
+                };
+                if v < self.model.cum_ref.len() {
+                    self.model.cum_ref[v] = match (self.model.cum_ref[v], prem) {
+                        (Some(c), Some(p)) => c.checked_add(p),
+                        _ => None,
+                    };
+                }
+            }
         }
         {
             let pre = std::mem::take(&mut self.obs);
